@@ -10,11 +10,11 @@ import (
 )
 
 // runMain: -mode run. Stress of every helper + the hand-assembled echo server.
-func runMain(seed uint64, tier, out, replay string) int {
+func runMain(seed uint64, tier, out, replay, onlyHelper string) int {
 	n, rounds := tierParams(tier)
 	res := vh.NewResult()
 	c := &collector{}
-	only := ""
+	only := onlyHelper
 	if replay != "" {
 		b, err := os.ReadFile(replay)
 		if err != nil {
